@@ -95,12 +95,25 @@ func TestVPReplay(t *testing.T) {
 	if err := zzvp.LoadReplay(%s); err != nil {
 		t.Fatal(err)
 	}
-	func() {
-%s		%s()
-		fmt.Printf("REPLAY-RESULT ran: failed=%%q checked=%%q env=%%v\\n", zzvp.ReplayFailed(), zzvp.ReplayChecked(), zzvp.ReplayUsedEnv())
-	}()
+	for try := 0; try < 40; try++ {
+		done := false
+		func() {
+%s			%s()
+			if len(zzvp.ReplayFailed()) > 0 || !zzvp.ReplayUsesMapOrder() || try == 39 {
+				fmt.Printf("REPLAY-RESULT ran: failed=%%q checked=%%q env=%%v maporder=%%v tries=%%d\\n", zzvp.ReplayFailed(), zzvp.ReplayChecked(), zzvp.ReplayUsedEnv(), zzvp.ReplayUsesMapOrder(), try+1)
+				done = true
+			}
+		}()
+		if done || !zzvp.ReplayUsesMapOrder() {
+			break
+		}
+		// the harness depends on Go's random map order: run it again with the same inputs
+		if err := zzvp.LoadReplay(%s); err != nil {
+			t.Fatal(err)
+		}
+	}
 }
-''' % (pkgname, json.dumps(d), json.dumps(d), RECOVER, h)
+''' % (pkgname, json.dumps(d), json.dumps(d), RECOVER, h, json.dumps(d))
 else:
     # closed-world harness: an external test package may import the app; it hands a real context and the real keepers
     # to the native zzvp (no environment model is involved natively)
@@ -181,6 +194,8 @@ if r.startswith('ran:'):
     failed = re.search(r'failed=\[(.*?)\] checked', r).group(1)
     if '"%s"' % want in failed:
         print('REPLAY reproduced: assertion "%s" of %s fails against the natively compiled code with the solver\'s inputs' % (want, h)); sys.exit(1)
+    if 'maporder=true' in r:
+        print('REPLAY not-replayable: %s depends on map iteration order, which cannot be forced natively; 40 native runs with Go\'s random order did not hit the failing order (%s)' % (h, r)); sys.exit(4)
     if 'env=true' in r:
         print('REPLAY not-reproduced-env: %s ran on a real app context (genesis defaults, not the model\'s closed world) and "%s" held (%s)' % (h, want, r)); sys.exit(5)
     print('REPLAY not-reproduced: %s ran natively to the end, "%s" held (%s)' % (h, want, r)); sys.exit(3)
